@@ -2,13 +2,24 @@
 
 Workload: functions with an event, state or time trigger plus guards: up to 4 positive/negated range()/cron()
 windows (daily, wrapping midnight, now-relative, dated, same-weekday), hold_off, @state_active expressions over
-unwatched guard entities and (for state triggers) the trigger variable and its .old.  Event/state occurrences
-stay >= 0.4 s away from every window edge (their evaluation time carries execution cost); time-trigger
-instants sit exactly on window end points and 1 s either side (their evaluation time is exact).  Also: a
-function with guards but no trigger, and direct calls of guarded functions.
+unwatched guard entities and (for state triggers) the trigger variable and its .old (also compared with
+thresholds inside the span of values it takes).  Event/state occurrences stay >= 0.3 s away from every window
+edge (their evaluation time carries execution cost); time-trigger instants sit exactly on window end points and
+1 s either side (their evaluation time is exact).  Also: a function with guards but no trigger, and direct
+calls of guarded functions.
+
+Two further ways an occurrence reaches the guards:
+* combined triggers - an event/state-triggered function that also has a @time_trigger, so its event/state
+  occurrences arrive while a time trigger is pending (and its time-trigger occurrences are gated too; a time
+  occurrence of a state-triggered function sees the trigger variable's current value and no .old);
+* delayed delivery - @state_trigger(..., state_hold=N) on the "any change" form: the change is handed to the
+  guards by the hold timer N seconds later, with further changes of the variable during the period.
 
 Oracle: sim.calendar window/crontab matcher + "any positive and no negative"; hold_off against the last
-accepted occurrence; expected run / no-run per occurrence.
+accepted occurrence; expected run / no-run per occurrence.  With state_hold the occurrence time is the end of
+the period, the trigger variable and its .old are those of the change that started the period, other entities
+are read at the end of the period (docs: "evaluated after the state_hold period, but with the initial trigger
+variable value"); changes during the period are no occurrences.
 """
 
 from __future__ import annotations
@@ -25,17 +36,24 @@ from ..world import World
 PROPERTY = "C07"
 LEVEL = "exploration"
 RULE = (
-    "seeded generation of 1-3 guarded functions (event/state/time trigger; 0-4 positive/negated range()/cron() "
+    "seeded generation of 1-3 guarded functions (event/state/time trigger, 30% of the event/state ones combined "
+    "with a @time_trigger, 40% of the state ones with state_hold; 0-4 positive/negated range()/cron() "
     "windows; hold_off; @state_active) and <=40 timed occurrences over ~8 simulated minutes incl. time-trigger "
     "instants exactly on window end points; distinct = scenario digest; non-trivial = at least one accepted and one "
     "rejected occurrence"
 )
 ASSUMPTIONS = [
-    "event/state occurrences are kept >= 0.4 s away from window edges and hold_off boundaries; time-trigger "
+    "event/state occurrences are kept >= 0.3 s away from window edges and hold_off boundaries; time-trigger "
     "occurrences are evaluated at their exact trigger time (documented: trigger_time is the exact datetime)",
     "weekday windows start and end on the same weekday; sunrise/sunset windows and DST days are not generated here",
-    "guard entities change >= 0.4 s away from any occurrence, so 'current value' is unambiguous",
+    "guard entities change >= 0.4 s away from any occurrence (>= 0.2 s from the end of a state_hold period), so "
+    "'current value' is unambiguous",
     "with hold_off, 'last successful' means an occurrence that passed every guard and ran",
+    "state_hold is used on the 'any change' form only (documented: it simply delays the trigger; the period is not "
+    "restarted by later changes, the arguments and the trigger variable seen by the guards are those of the first "
+    "change); the occurrence time of a held change is the end of the period; a change within 0.1 s of the end of a "
+    "period makes the rest of that function's occurrences don't-care",
+    "in a combined trigger the occurrences of both triggers share the function's guards and its hold_off",
 ]
 TIERS = {
     "quick": {"runs": 1800, "chunk": 60},
@@ -43,7 +61,9 @@ TIERS = {
 }
 REACH_PROBES = ["occurrence_on_window_end", "hold_off_rejected", "negated_window_rejected", "positive_and_negative_mixed",
                 "wrapping_window", "state_active_rejected", "state_active_old_used", "guard_without_trigger",
-                "direct_call_of_guarded", "cron_window", "several_negated"]
+                "direct_call_of_guarded", "cron_window", "several_negated",
+                "combined_trigger", "combined_first_after_window_edge",
+                "state_hold_occurrence", "state_hold_absorbed_change", "state_hold_guard_on_trigger_values"]
 SHRINK_LISTS = [["ops"], ["spec", "funcs"], ["spec", "funcs", "*", "windows"]]
 
 
@@ -94,6 +114,30 @@ def _gen_window(rng: random.Random, base: dt.datetime) -> dict:
     return spec
 
 
+# state_hold periods: a change on the x.5 s grid is delivered at x.7 s, 0.2 s clear of every other stimulus and
+# 0.3 s clear of the whole-second window edges
+STATE_HOLDS = [1.2, 2.2, 4.2]
+
+
+def _gen_instants(rng: random.Random, windows: list, base: dt.datetime) -> list:
+    """Time-trigger instants exactly on window end points and one second either side, plus a few others."""
+    edges = []
+    for win in windows:
+        if win["type"] == "range" and win["start"]["date"]["k"] in ("none", "full", "dow"):
+            for key in ("start", "end"):
+                tm = win[key]["time"]
+                edges.append(dt.datetime(base.year, base.month, base.day, tm["h"], tm["m"], tm["s"]))
+    insts = set()
+    for e in edges:
+        for d in (-1, 0, 1):
+            t = e + dt.timedelta(seconds=d)
+            if base + dt.timedelta(seconds=5) < t < base + dt.timedelta(seconds=460):
+                insts.add(t)
+    for _ in range(rng.randint(1, 3)):
+        insts.add(base + dt.timedelta(seconds=rng.randint(10, 440)))
+    return [[t.hour, t.minute, t.second] for t in sorted(insts)][:8]
+
+
 def window_src(win: dict) -> str:
     if win["type"] == "cron":
         return ("not " if win.get("neg") else "") + f"cron({win['expr']})"
@@ -113,32 +157,30 @@ def gen(rng: random.Random, tier: str) -> dict:
         windows = [_gen_window(rng, base) for _ in range(rng.choice([0, 1, 1, 2, 3, 4]))]
         func = {"name": f"f{fi}", "trig": trig, "windows": windows,
                 "hold_off": rng.choice([None, None, None, 1.2, 3.3, 0]) if trig != "time" else None,
-                "active": None, "time_active": bool(windows) or rng.random() < 0.3}
-        if rng.random() < 0.4:
+                "active": None, "time_active": bool(windows) or rng.random() < 0.3,
+                "also_time": False, "state_hold": None}
+        # combined triggers: the same function also has a @time_trigger, so its event/state occurrences arrive
+        # while a time trigger is pending
+        if trig != "time" and rng.random() < 0.3:
+            func["also_time"] = True
+        # delayed delivery: the state occurrence is handed over by the state_hold timer, not by the change itself
+        if trig == "state" and rng.random() < 0.4:
+            func["state_hold"] = rng.choice(STATE_HOLDS)
+        if rng.random() < (0.65 if func["state_hold"] else 0.4):
             ents = ["pyscript.g0", "pyscript.g1"]
             if trig == "state":
                 func["active"] = X.gen_expr(rng, ents + [f"pyscript.t{fi}"], [], depth=1, allow_old=True, allow_raise=True)
+                if rng.random() < 0.5:
+                    # the trigger variable takes the values 1..~45: compare it / its .old with a threshold in that span
+                    atom = ["int", [rng.choice(["v", "old"]), f"pyscript.t{fi}"], rng.choice(["<", "<=", ">", ">="]),
+                            rng.choice([4, 9, 16, 25])]
+                    func["active"] = rng.choice([atom, ["and", func["active"], atom], ["or", atom, func["active"]]])
             else:
                 func["active"] = X.gen_expr(rng, ents, [], depth=1, allow_old=False, allow_raise=True)
         if not func["time_active"]:
             func["hold_off"] = None
-        if trig == "time":
-            # instants exactly on window end points and one second either side
-            edges = []
-            for win in windows:
-                if win["type"] == "range" and win["start"]["date"]["k"] in ("none", "full", "dow"):
-                    for key in ("start", "end"):
-                        tm = win[key]["time"]
-                        edges.append(dt.datetime(base.year, base.month, base.day, tm["h"], tm["m"], tm["s"]))
-            insts = set()
-            for e in edges:
-                for d in (-1, 0, 1):
-                    t = e + dt.timedelta(seconds=d)
-                    if base + dt.timedelta(seconds=5) < t < base + dt.timedelta(seconds=460):
-                        insts.add(t)
-            for _ in range(rng.randint(1, 3)):
-                insts.add(base + dt.timedelta(seconds=rng.randint(10, 440)))
-            func["instants"] = [[t.hour, t.minute, t.second] for t in sorted(insts)][:8]
+        if trig == "time" or func["also_time"]:
+            func["instants"] = _gen_instants(rng, windows, base)
         funcs.append(func)
     spec = {"funcs": funcs, "no_trigger_func": rng.random() < 0.25, "base": base.isoformat()}
     # occurrences on a 0.5 s grid offset by .5 from the whole-second edges
@@ -172,6 +214,11 @@ def gen(rng: random.Random, tier: str) -> dict:
 
 
 # ------------------------------------------------------------------ rendering
+def _has_time(func: dict) -> bool:
+    """The function has a @time_trigger (alone, or next to its event/state trigger)."""
+    return func["trig"] == "time" or bool(func.get("also_time") and func.get("instants"))
+
+
 def render(scn: dict) -> dict:
     lines = []
     for func in scn["spec"]["funcs"]:
@@ -179,8 +226,9 @@ def render(scn: dict) -> dict:
         if func["trig"] == "event":
             lines.append(f"@event_trigger('ev_{func['name']}')")
         elif func["trig"] == "state":
-            lines.append(f"@state_trigger('pyscript.t{fi}')")
-        else:
+            hold = f", state_hold={func['state_hold']}" if func.get("state_hold") else ""
+            lines.append(f"@state_trigger('pyscript.t{fi}'{hold})")
+        if _has_time(func):
             specs = ", ".join(repr(f"once({h}:{m:02d}:{s:02d})") for h, m, s in func.get("instants", []))
             lines.append(f"@time_trigger({specs})")
         if func["active"] is not None:
@@ -230,6 +278,15 @@ def simplify(scn: dict):
                 cand = copy.deepcopy(scn)
                 cand["spec"]["funcs"][fi][key] = val
                 yield cand
+        if func.get("state_hold"):
+            cand = copy.deepcopy(scn)
+            cand["spec"]["funcs"][fi]["state_hold"] = None
+            yield cand
+        if func.get("also_time"):
+            cand = copy.deepcopy(scn)
+            cand["spec"]["funcs"][fi]["also_time"] = False
+            cand["spec"]["funcs"][fi].pop("instants", None)
+            yield cand
         for wi, win in enumerate(func["windows"]):
             if win.get("neg"):
                 cand = copy.deepcopy(scn)
@@ -349,7 +406,11 @@ def oracle(w: World, scn: dict, info: dict, base: dt.datetime):
         marks = [m for m in w.marks if m["args"][0] == name]
         trig_marks = [m for m in marks if "direct" not in m["raw_kw"]]
         direct_marks = [m for m in marks if "direct" in m["raw_kw"]]
-        desc = (f"{name} [{func['trig']} trigger; @time_active({', '.join(window_src(x) for x in func['windows'])}"
+        hold = func.get("state_hold") or None
+        has_time = _has_time(func)
+        desc = (f"{name} [{func['trig']}{'+time' if has_time and func['trig'] != 'time' else ''} trigger"
+                f"{', state_hold=' + str(hold) if hold else ''}"
+                f"; @time_active({', '.join(window_src(x) for x in func['windows'])}"
                 f"{', hold_off=' + str(func['hold_off']) if func['hold_off'] is not None else ''})"
                 f"{'; @state_active(' + X.to_src(func['active']) + ')' if func['active'] is not None else ''}]")
         # ---- direct calls are never affected by guards
@@ -357,8 +418,29 @@ def oracle(w: World, scn: dict, info: dict, base: dt.datetime):
         got_direct = [m["raw_kw"]["direct"] for m in direct_marks]
         if got_direct != want_direct:
             viol("C07.guard_affected_direct_call", {}, f"{desc}: direct calls {want_direct} ran as {got_direct}")
+        # ---- guard entity history (for occurrences that are evaluated at a timer instant)
+        g_hist = []
+        g = dict(gvals)
+        for rec in timeline:
+            op = rec["op"]
+            if op["kind"] == "set" and op["e"] in g:
+                g[op["e"]] = op["s"]
+                g_hist.append((rec["wall"], dict(g)))
+
+        def guards_at(t, tol):
+            gv = dict(gvals)
+            for wall, vals in g_hist:
+                if wall <= t:
+                    gv = vals
+                if abs((wall - t).total_seconds()) < tol:
+                    return None  # guard entity changed at the same moment: don't-care
+            return gv
+
         # ---- occurrences
         occs = []
+        absorbed = {}
+        pending_until = None
+        unsure_from = None
         g = dict(gvals)
         for rec in timeline:
             op = rec["op"]
@@ -368,48 +450,84 @@ def oracle(w: World, scn: dict, info: dict, base: dt.datetime):
                 occs.append({"key": ("ctx", rec["ctx"]), "now": rec["wall"], "vt": rec["vt"], "g": dict(g), "exact": False,
                              "label": f"event id {op['data']['id']} at {rec['wall']}"})
             elif func["trig"] == "state" and op["kind"] == "set" and op["e"] == f"pyscript.t{fi}" and rec["old"] != op["s"]:
-                occs.append({"key": ("val", op["s"]), "now": rec["wall"], "vt": rec["vt"], "g": dict(g), "exact": False,
-                             "new": op["s"], "old": rec["old"], "label": f"{op['e']} {rec['old']}->{op['s']} at {rec['wall']}"})
-        if func["trig"] == "time":
-            g_hist = []
-            g = dict(gvals)
-            for rec in timeline:
-                op = rec["op"]
-                if op["kind"] == "set" and op["e"] in g:
-                    g[op["e"]] = op["s"]
-                    g_hist.append((rec["wall"], dict(g)))
+                if not hold:
+                    occs.append({"key": ("val", op["s"]), "now": rec["wall"], "vt": rec["vt"], "g": dict(g), "exact": False,
+                                 "new": op["s"], "old": rec["old"], "label": f"{op['e']} {rec['old']}->{op['s']} at {rec['wall']}"})
+                    continue
+                # state_hold on the "any change" form (documented): the change is delivered ``hold`` seconds later
+                # with its own values; changes during that period do not restart it and are not delivered;
+                # the guards are evaluated after the period, with the initial trigger variable values
+                if pending_until is not None and rec["vt"] < pending_until - 0.1:
+                    absorbed[("val", op["s"])] = occs[-1]["label"] if occs else "?"
+                    w.probe("state_hold_absorbed_change")
+                    continue
+                if pending_until is not None and rec["vt"] < pending_until + 0.1 and unsure_from is None:
+                    unsure_from = len(occs)  # a change at the very end of the period: from here on don't-care
+                pending_until = rec["vt"] + hold
+                due = rec["wall"] + dt.timedelta(seconds=hold)
+                occs.append({"key": ("val", op["s"]), "now": due, "vt": pending_until, "g": guards_at(due, 0.15), "exact": False,
+                             "new": op["s"], "old": rec["old"], "held": True,
+                             "label": f"{op['e']} {rec['old']}->{op['s']} at {rec['wall']} (state_hold over at {due})"})
+        if unsure_from is not None:
+            for occ in occs[unsure_from:]:
+                occ["g"] = None
+                occ["dc"] = True
+        for occ in occs:
+            if occ.get("held") and occ["vt"] > info["end"] - 0.5:
+                occ["dc"] = True  # the run ended before / as the period was over
+        if has_time:
             for h, m_, s_ in func.get("instants", []):
                 t = dt.datetime(base.year, base.month, base.day, h, m_, s_)
                 if t <= startup + dt.timedelta(seconds=1):
                     continue
-                gv = dict(gvals)
-                for wall, vals in g_hist:
-                    if wall <= t:
-                        gv = vals
-                    if abs((wall - t).total_seconds()) < 0.3:
-                        gv = None  # guard entity changed at the same moment: don't-care
-                        break
-                occs.append({"key": ("tt", t), "now": t, "vt": None, "g": gv, "exact": True, "label": f"time trigger at {t}"})
-            occs.sort(key=lambda o: o["now"])
+                occ = {"key": ("tt", t), "now": t, "vt": None, "g": guards_at(t, 0.3), "exact": True,
+                       "label": f"time trigger at {t}"}
+                if func["trig"] == "state":
+                    # no triggering state values: the variable reads as its current value, its .old as None
+                    cur = "0"
+                    for rec in timeline:
+                        if rec["op"]["kind"] == "set" and rec["op"]["e"] == f"pyscript.t{fi}":
+                            if rec["wall"] <= t:
+                                cur = rec["op"]["s"]
+                            if abs((rec["wall"] - t).total_seconds()) < 0.3:
+                                occ["g"] = None
+                    occ["new"], occ["old"] = cur, None
+                occs.append(occ)
+        occs.sort(key=lambda o: o["now"])
         # ---- observed runs keyed like occurrences
         got = {}
         for m in trig_marks:
             raw = m["raw_kw"]
-            if func["trig"] == "event":
+            kind = raw.get("trigger_type") if has_time and func["trig"] != "time" else func["trig"]
+            if kind == "event":
                 key = ("ctx", raw["context"].id if raw.get("context") is not None else None)
-            elif func["trig"] == "state":
+            elif kind == "state":
                 key = ("val", str(raw.get("value")))
             else:
                 key = ("tt", raw.get("trigger_time"))
             got.setdefault(key, []).append(m)
         last_accept = None
+        prev_now = None
         known_keys = set()
         for occ in occs:
             known_keys.add(occ["key"])
             now = occ["now"]
             runs = got.get(occ["key"], [])
-            dontcare = False
+            dontcare = bool(occ.get("dc"))
             reason = None
+            if occ.get("held"):
+                w.probe("state_hold_occurrence")
+                if func["active"] is not None and any(r[1] == f"pyscript.t{fi}" for r in X.refs(func["active"])):
+                    w.probe("state_hold_guard_on_trigger_values")
+            if has_time and func["trig"] != "time":
+                w.probe("combined_trigger")
+                if not occ["exact"] and func["time_active"] and func["windows"]:
+                    # the first event/state occurrence after a window edge was passed while the time trigger was pending
+                    here, dc_a = window_verdict(func["windows"], now, startup)
+                    before, dc_b = window_verdict(func["windows"], prev_now or startup, startup)
+                    if not dc_a and not dc_b and here != before:
+                        w.probe("combined_first_after_window_edge")
+            prev_now = now
             # 1. state_active
             ok = True
             if func["active"] is not None:
@@ -498,7 +616,12 @@ def oracle(w: World, scn: dict, info: dict, base: dt.datetime):
                          f"{last_accept}) but the function ran", runs[0]["vt"])
                     last_accept = now  # the implementation accepted it: follow it for later hold_off decisions
         for key, ms in got.items():
-            if key not in known_keys:
+            if key in absorbed:
+                viol("C07.state_hold_delivered_other_change", {},
+                     f"{desc}: ran with the values of {key}, a change during the state_hold period started by "
+                     f"{absorbed[key]} (the arguments and guard values are those of the change that started it): "
+                     f"{ms[0]['kw']}", ms[0]["vt"])
+            elif key not in known_keys:
                 viol("C07.guard_started_run", {"trigger": func["trig"]},
                      f"{desc}: ran for {key} which is no occurrence of its trigger: {ms[0]['kw']}", ms[0]["vt"])
     if spec["no_trigger_func"]:
